@@ -243,6 +243,29 @@ def run(case, ctx):
         if len(g.dovetails) != 1:
             ctx.violation("path-duplicates-link", repr([str(x) for x in g.dovetails]))
             return
+    # two paths which state different overlaps for the step arrive before the link, which is written
+    # in either of its two forms with an unspecified overlap: it is the link of both paths
+    f, fo, t, to = case["f"], case["fo"], case["t"], case["to"]
+    if f != t or fo == to:
+        for form in ("as-written", "complement"):
+            lk = ("L\t%s\t%s\t%s\t%s\t*" % (f, fo, t, to)) if form == "as-written" else \
+                 ("L\t%s\t%s\t%s\t%s\t*" % (t, S.inv(to), f, S.inv(fo)))
+            segs = list(dict.fromkeys(["S\t%s\t*" % f, "S\t%s\t*" % t]))
+            doc = segs + ["P\tp1\t%s%s,%s%s\t5M" % (f, fo, t, to),
+                          "P\tp2\t%s%s,%s%s\t3M1D" % (t, S.inv(to), f, S.inv(fo)), lk]
+            r = call(ctx, "Gfa(list)", gfapy.Gfa, doc, vlevel=1)
+            ctx.count("placeholder_links_of_two_paths")
+            if not r.ok:
+                ctx.violation("paths-before-link-refused/%s/%s" % (form, r.cls()), "%r: %s" % (doc, str(r.exc)[:200]))
+                return
+            real = [l for l in r.value.dovetails if not l.virtual]
+            virt = [l for l in r.value.dovetails if l.virtual]
+            l1, l2 = r.value.line("p1").links, r.value.line("p2").links
+            if virt or len(real) != 1 or l1[0].line is not real[0] or l2[0].line is not real[0] or \
+                    (l1[0].orient == l2[0].orient and (f, fo) != (t, S.inv(to))):
+                ctx.violation("paths-before-link-not-on-it/%s" % form, "%r: links of p1 %r, of p2 %r, placeholders %r"
+                              % (doc, [str(x) for x in l1], [str(x) for x in l2], [str(x) for x in virt]))
+                return
     ctx.sample({"link": lt, "paths": "both directions", "order": case["order"]})
 
 
